@@ -232,9 +232,151 @@ theorem case_none (c : RCtx) (sel : GoVal) (s : RS) (pre : List ((Nat × List Ex
     rw [List.map_cons, renderCases_when, hpre b (by simp)]
     exact ih (fun x hx => hpre x (by simp [hx]))
 
+/-! ### Closed forms: the whole chain in one equation -/
+
+/-- a branch *fires* when its test is not falsy: it is truthy, or its evaluation fails -/
+def branchFires (P : Prims) (env : Env) (b : CondT × List Node) : Bool :=
+  match condRes P env b.1 with
+  | .ok false => false
+  | _ => true
+
+/-- **C10 (if_denotation).** Rendering an `if`/`elsif`/`else` (or `unless`) chain is, for every
+    branch list and state, rendering what `List.find?` selects: the first branch whose test is
+    not falsy. If that test is truthy the result is exactly the rendering of that branch's body;
+    if its evaluation fails the chain fails with that error, located at the branch's own tag
+    (tests of earlier branches were falsy, tests of later branches are never evaluated); if no
+    branch fires nothing is rendered and the state is unchanged. Composes `if_first_truthy`,
+    `if_none` and `if_cond_err`. -/
+theorem if_denotation (c : RCtx) (bs : List (CondT × List Node)) (s : RS) :
+    renderBranches c bs s =
+      match bs.find? (branchFires c.P s.env) with
+      | none => .ret (.done, s)
+      | some (t, body) =>
+        match condRes c.P s.env t with
+        | .ok _ => renderBlockBody c body s
+        | .err e => .fail (condErr c.cfg.path t e)
+        | .panic w => .panic w
+        | .unmodelled w => .unmodelled w := by
+  induction bs with
+  | nil => rw [renderBranches]; rfl
+  | cons b bs ih =>
+    obtain ⟨t, body⟩ := b
+    rw [renderBranches_cons, List.find?_cons]
+    cases h : condRes c.P s.env t with
+    | ok v =>
+      cases v with
+      | true => simp only [branchFires, h]
+      | false => simp only [branchFires, h]; exact ih
+    | err e => simp only [branchFires, h]
+    | panic w => simp only [branchFires, h]
+    | unmodelled w => simp only [branchFires, h]
+
+/-- the selected branch of `if_denotation` is the first that fires: every branch before it has a
+    falsy test (so `find?` here says exactly "first truthy, errors of earlier tests propagated") -/
+theorem if_denotation_selects (P : Prims) (env : Env) (bs : List (CondT × List Node)) (b : CondT × List Node)
+    (h : bs.find? (branchFires P env) = some b) :
+    ∃ pre later, bs = pre ++ b :: later ∧ (∀ x ∈ pre, condRes P env x.1 = .ok false) ∧
+      condRes P env b.1 ≠ .ok false := by
+  obtain ⟨hb, pre, later, hbs, hpre⟩ := List.find?_eq_some_iff_append.mp h
+  refine ⟨pre, later, hbs, ?_, ?_⟩
+  · intro x hx
+    have := hpre x hx
+    simp only [branchFires] at this
+    split at this
+    · assumption
+    · simp at this
+  · intro hf
+    simp [branchFires, hf] at hb
+
+/-- the `if` node itself: the chain, with failures and loop sentinels re-wrapped at the tag -/
+theorem if_node_denotation (c : RCtx) (line : Nat) (bs : List (CondT × List Node)) (s : RS) :
+    renderNode c (.ifB line bs) s =
+      wrapAt c.cfg.path ⟨line, true⟩ (fun s =>
+        match bs.find? (branchFires c.P s.env) with
+        | none => .ret (.done, s)
+        | some (t, body) =>
+          match condRes c.P s.env t with
+          | .ok _ => renderBlockBody c body s
+          | .err e => .fail (condErr c.cfg.path t e)
+          | .panic w => .panic w
+          | .unmodelled w => .unmodelled w) s := by
+  rw [renderNode]
+  simp only [wrapAt, if_denotation]
+
+/-- a `case` clause fires when it is the `else` clause or its `when` values are not all unequal
+    to the subject (one is equal, or the evaluation / comparison fails) -/
+def clauseFires (P : Prims) (env : Env) (sel : GoVal) (cl : Option (Nat × List Expr) × List Node) : Bool :=
+  match cl.1 with
+  | none => true
+  | some (_, es) =>
+    match whenRes P env sel es with
+    | .ok false => false
+    | _ => true
+
+/-- **C10 (case_denotation).** Rendering the clauses of a `case` with subject value `sel` is
+    rendering what `List.find?` selects: the first clause that is an `else` or whose `when` list
+    is not entirely unequal to the subject. A matching `when` (or the `else`) renders exactly its
+    body; a `when` whose evaluation fails makes the `case` fail with that error at the `when` tag;
+    no clause: nothing is rendered. Composes `case_first_equal`, `case_else`, `case_none`. -/
+theorem case_denotation (c : RCtx) (sel : GoVal) (cs : List (Option (Nat × List Expr) × List Node)) (s : RS) :
+    renderCases c sel cs s =
+      match cs.find? (clauseFires c.P s.env sel) with
+      | none => .ret (.done, s)
+      | some (none, body) => renderBlockBody c body s
+      | some (some (line, es), body) =>
+        match whenRes c.P s.env sel es with
+        | .ok _ => renderBlockBody c body s
+        | .err x => .fail (.located (wrapError c.cfg.path (.plain x) ⟨line, true⟩))
+        | .panic w => .panic w
+        | .unmodelled w => .unmodelled w := by
+  induction cs with
+  | nil => rw [renderCases]; rfl
+  | cons cl cs ih =>
+    obtain ⟨w, body⟩ := cl
+    cases w with
+    | none => rw [renderCases, List.find?_cons]; simp only [clauseFires]
+    | some le =>
+      obtain ⟨line, es⟩ := le
+      rw [renderCases_when, List.find?_cons]
+      cases h : whenRes c.P s.env sel es with
+      | ok v =>
+        cases v with
+        | true => simp only [clauseFires, h]
+        | false => simp only [clauseFires, h]; exact ih
+      | err e => simp only [clauseFires, h]
+      | panic w => simp only [clauseFires, h]
+      | unmodelled w => simp only [clauseFires, h]
+
+/-- the `case` node: the subject is evaluated once, first; its failure is the node's failure -/
+theorem case_node_denotation (c : RCtx) (line : Nat) (subject : Expr) (cs : List (Option (Nat × List Expr) × List Node))
+    (s : RS) (sel : GoVal) (hsel : evaluate c.P s.env subject = .ok sel) :
+    renderNode c (.caseB line subject cs) s = wrapAt c.cfg.path ⟨line, true⟩ (renderCases c sel cs) s := by
+  rw [renderNode]
+  simp only [wrapAt, bind, M.bind, M.getEnv, Prog.bind, hsel, M.ofRes, pure, M.pure]
+
+theorem case_subject_err (c : RCtx) (line : Nat) (subject : Expr) (cs : List (Option (Nat × List Expr) × List Node))
+    (s : RS) (e : Cause) (hsel : evaluate c.P s.env subject = .err e) :
+    renderNode c (.caseB line subject cs) s = .fail (.located (wrapError c.cfg.path (.plain e) ⟨line, true⟩)) := by
+  rw [renderNode]
+  simp only [wrapAt, bind, M.bind, M.getEnv, Prog.bind, hsel, M.ofRes, M.fail, Prog.mapFail]
+
 /-! Non-vacuity: literal conditions `false`, `nil`, `0` — the third is truthy. -/
 example (P : Prims) (env : Env) : condRes P env (.expr 1 (.lit (.bool false))) = .ok false := rfl
 example (P : Prims) (env : Env) : condRes P env (.expr 1 (.lit .nil)) = .ok false := rfl
 example (P : Prims) (env : Env) : condRes P env (.expr 1 (.lit (.int .int 0))) = .ok true := rfl
 example (P : Prims) (env : Env) : condRes P env (.expr 1 (.lit (.str []))) = .ok true := rfl
 example (P : Prims) (env : Env) : condRes P env (.expr 1 (.lit (.slice .any []))) = .ok true := rfl
+
+/-! Non-vacuity of the closed forms: `{% if false %}A{% elsif 0 %}B{% else %}C{% endif %}` selects B
+    (0 is truthy); a `case` on 1 with `when 2`, `else` selects the else clause. -/
+example (P : Prims) (env : Env) (A B C : List Node) :
+    [(CondT.expr 1 (.lit (.bool false)), A), (CondT.expr 2 (.lit (.int .int 0)), B), (CondT.always, C)].find?
+      (branchFires P env) = some (CondT.expr 2 (.lit (.int .int 0)), B) := rfl
+example (P : Prims) (env : Env) (A : List Node) :
+    [(CondT.expr 1 (.lit .nil), A)].find? (branchFires P env) = none := rfl
+/-- with a comparison that never holds, a `case` with one `when` and an `else` selects the `else` clause -/
+example (env : Env) (sel : GoVal) (A B : List Node) :
+    [(some (1, [Expr.lit (.int .int 2)]), A), (none, B)].find?
+      (clauseFires { equal := fun _ _ => .ok false, less := fun _ _ => .ok false, contains := fun _ _ => .ok false,
+                     equalFn := fun _ _ => .ok false, applyFilter := fun _ v _ => .ok v, hasFilter := fun _ => false }
+        env sel) = some (none, B) := rfl
